@@ -589,3 +589,63 @@ pub fn stream_core(out: &mut impl Write, seed: u64, budget: usize) {
         emit_core(out, vi, len0, &tail0, &pieces);
     }
 }
+
+// ---------------------------------------------------------------------------
+// known-answer vectors (corpus/kat.txt)
+// ---------------------------------------------------------------------------
+
+fn kat_input(spec: &str) -> Option<Vec<u8>> {
+    if let Some(h) = spec.strip_prefix("hex:") {
+        return Some(unhex(h));
+    }
+    if let Some(rest) = spec.strip_prefix("cycle:") {
+        // cycle:<first>:<period>:<count>:<final byte hex>
+        let f: Vec<&str> = rest.split(':').collect();
+        let first: u8 = f[0].parse().ok()?;
+        let period: usize = f[1].parse().ok()?;
+        let count: usize = f[2].parse().ok()?;
+        let mut v: Vec<u8> = (0..count).map(|i| first + (i % period) as u8).collect();
+        v.extend_from_slice(&unhex(f[3]));
+        return Some(v);
+    }
+    if let Some(path) = spec.strip_prefix("file:") {
+        let root = std::env::var("VERIF_REPO").unwrap_or_else(|_| "/repo".to_string());
+        return std::fs::read(std::path::Path::new(&root).join(path)).ok();
+    }
+    None
+}
+
+pub fn stream_kat(out: &mut impl Write, corpus: &str) {
+    let text = std::fs::read_to_string(corpus).expect("corpus file");
+    for line in text.lines() {
+        if line.starts_with('#') || line.trim().is_empty() {
+            continue;
+        }
+        let f: Vec<&str> = line.split(' ').collect();
+        let (kind, vi, opts, input, expected) = (f[0], f[1].parse::<usize>().unwrap(), f[2].parse::<u32>().unwrap(), f[3], f[4]);
+        let data = match kat_input(input) {
+            Some(d) => d,
+            None => {
+                writeln!(out, "ORACLE C01 kat-input-unavailable {}", line).unwrap();
+                continue;
+            }
+        };
+        emit_gen(out, vi, &data, &[data.clone()], &opts.to_string(), &[opts]);
+        // the code must reproduce the recorded digest
+        let got = with_variant!(vi, T => {
+            let mut g = Generator::<T>::new();
+            g.update(&data);
+            match g.finalize_with_options(&options_from_bits(opts)) {
+                Ok(h) => {
+                    let mut buf = vec![0u8; variant_str_len(vi)];
+                    h.store_into_str_bytes(&mut buf, tlsh::HexStringPrefix::WithVersion).unwrap();
+                    String::from_utf8(buf).unwrap()
+                }
+                Err(e) => format!("err:{:?}", e),
+            }
+        });
+        if got != expected {
+            writeln!(out, "ORACLE C01 kat-{}-digest-not-reproduced expected={} got={} input={}", kind, expected, got, &input[..input.len().min(80)]).unwrap();
+        }
+    }
+}
